@@ -1069,6 +1069,9 @@ async fn output(
     // in most cases. Only in the very end of this method, when actually collecting the result bits
     // we use `circ.output_regs` including the potentially duplicate registers.
     let unqiue_output_regs: BTreeSet<_> = circ.output_regs.iter().copied().collect();
+    // The output parties are a set as well: naming a party twice must not make us send (or expect)
+    // the opening messages twice.
+    let p_out: BTreeSet<usize> = p_out.iter().copied().collect();
 
     try_join_all(
         p_out
